@@ -30,7 +30,8 @@ META = {
     'bounds': 'H1: one daemon; symbolic (flag already set at symbolic age>=0, backoff None|>=0, timeout None|>=0, task done). '
               'H1b: one daemon; reaction in {obeys flag after r, exits on cancel after r, ignores both}; symbolic backoff/timeout/r. '
               'H2: one object, one daemon or timer (interval/idle cells); <=3 script steps from {label off, label on, essential edit, '
-              'mark deletion, DELETED without deletionTimestamp, pause on, pause off, operator exit} at symbolic gaps.',
+              'mark deletion, DELETED without deletionTimestamp, pause on, pause off, operator exit} at symbolic gaps (unbounded for the '
+              'daemon except gaps spent in the paused state: <= 3 s; <= 8/12 s for timers); horizon 50 s after the last step.',
     'outside': 'sync (threaded) daemons; >1 object; real wall-clock watchdog (replaced by SymLoop Livelock/Diverged budgets)',
     'stubs': ['api.patch -> FakeServer'],
     'assumptions': [],
@@ -307,6 +308,8 @@ def run_history(kind, steps, gaps, timer_kw=None, horizon=50, ties=(), exit_dela
         killer.cancel()
         await asyncio.gather(killer, return_exceptions=True)
         log.append(('killed', loop.time(), live[0]))
+        await asyncio.sleep(10)                 # abandoned instances are still there: they must not start anything new
+        log.append(('post', loop.time(), live[0]))
         await cancel_all_others()
     w.run(main(), ties=ties, max_steps=8000)
     return log, live, w
@@ -329,6 +332,17 @@ def h_history(s0: int, s1: int, s2: int, g0: int, g1: int, g2: int, r: int) -> b
     steps = [s0, s1, s2][:n]
     if allowed is not None and any(s not in allowed for s in steps):
         return True
+    # while the operator is paused, the daemon killer re-scans every second: every further second of a symbolic gap is
+    # another case split, so the gaps that pass in the paused state are bounded
+    pmax = c.get('paused_gap_max', 3)
+    is_paused = False
+    for s, g in zip(steps, [g0, g1, g2][:n]):
+        if is_paused and g > pmax:
+            return True
+        if s == 5:
+            is_paused = True
+        elif s == 6:
+            is_paused = False
     # known finding F12: a daemon that ignores the stop flag is never cancelled when its object disappears without a
     # deletion mark (the memory is forgotten on DELETED and no further cycle escalates the termination)
     f12 = bool(c.get('stubborn')) and 4 in steps
@@ -355,8 +369,13 @@ def h_history(s0: int, s1: int, s2: int, g0: int, g1: int, g2: int, r: int) -> b
         ok = False
     if 'mark_deleted' in names and end[2] != 0:
         ok = False              # (the horizon of 50 s exceeds every wind-down delay)
-    # after the operator exits nothing keeps running
-    if killed[2] != 0:
+    # after the operator exits nothing keeps running; a timer has neither backoff nor timeout, so a tick that is in progress
+    # at that instant is abandoned at once (the last stage) -- but it has seen the flag and never ticks again
+    if c['kind'] == 'timer':
+        k = log.index(killed)
+        if any(e[0] == 'tick' for e in log[k + 1:]):
+            ok = False
+    elif killed[2] != 0:
         ok = False
     if c['kind'] == 'daemon' and c.get('stubborn'):
         # a daemon that ignores the flag is cancelled after the backoff, whoever asked it to stop first
